@@ -431,6 +431,20 @@ func (p *Program) shapeOf(fn *types.Func) (*funcShape, bool) {
 				a.Ret = append(a.Ret, env.term(r))
 			}
 			sh.Arms = append(sh.Arms, a)
+		case *ast.AssignStmt:
+			// let-binding: x := <pure expression>
+			if last || s.Tok != token.DEFINE || len(s.Lhs) != len(s.Rhs) {
+				return nil, false
+			}
+			for j, l := range s.Lhs {
+				id, ok := l.(*ast.Ident)
+				if !ok {
+					return nil, false
+				}
+				if o := pkg.TypesInfo.Defs[id]; o != nil {
+					env.bind[o] = env.term(s.Rhs[j])
+				}
+			}
 		default:
 			return nil, false
 		}
